@@ -355,7 +355,13 @@ class ExprMixin:
                         s.assume(z3.Implies(guard_t, f))
                     s.heap.update({k: v for k, v in s2.heap.items() if k not in s.heap})
                     try:
-                        mv = self.merge(tv, rv, v, s) if is_and else self.merge(tv, v, rv, s)
+                        v0_, rv0_ = self.deref(v, s), self.deref(rv, s)
+                        if (not is_and and isinstance(v0_, V) and v0_.sort.kind == "opt" and isinstance(rv0_, V)
+                                and rv0_.sort == v0_.sort.args[0] and rv0_.sort.kind in ("int", "real", "bool", "ostr")):
+                            # `x or d` with x Optional[T], d a T: a true x is not None, so the result is a T
+                            mv = V(rv0_.sort, z3.If(tv, self.U.z3sort(v0_.sort).val(v0_.t), rv0_.t))
+                        else:
+                            mv = self.merge(tv, rv, v, s) if is_and else self.merge(tv, v, rv, s)
                     except Unsupported:
                         if self.spec_mode:
                             raise
